@@ -906,6 +906,11 @@ func c03Do(r *R, c *imapclient.Client, o *c03op) bool {
 		if o.SOpts != nil && o.SOpts.ReturnCount {
 			c03eq(r, o, "Count", o.Search.Count, d.Count)
 		}
+		// whether the numbers are UIDs, also when the result is empty (SearchData.UID is documented as set for
+		// the ESEARCH form only, which the server uses whenever RETURN options were given)
+		if o.SOpts != nil && (o.SOpts.ReturnMin || o.SOpts.ReturnMax || o.SOpts.ReturnAll || o.SOpts.ReturnCount) {
+			c03eq(r, o, "UID", o.Search.UID, d.UID)
+		}
 	case "Copy":
 		var ns imap.NumSet = imap.SeqSetNum(1)
 		if o.UseUID {
